@@ -230,6 +230,11 @@ def run(spec):
             for j in range(spec["count"]):
                 n = int(rng.integers(1, 11))
                 maxcor = int(rng.integers(1, 8))
+                if j % 6 == 5:
+                    # scale: dimensions and memories larger than the bulk of the inputs
+                    n = int(rng.integers(20, 61))
+                    maxcor = int(rng.integers(8, 21))
+                    out.count("inputs_in_20_to_60_dimensions_with_memory_up_to_20")
                 npairs = int(rng.integers(0, maxcor + 1))
                 idle = None
                 if n >= 3 and j % 4 == 1:
